@@ -190,27 +190,36 @@ Definition tree_balanced (t : tree) : bool :=
   | None => false
   end.
 
-(* upper bound on the net of any word (completed or exited): how far one
-   handler can raise the counter before the overflow test runs.  [None] =
-   unbounded (a loop that gains a frame per iteration). *)
+(* upper bound on the net of the word of a handler that runs to completion
+   (an error exit ends the evaluation; the translator refuses non-error early
+   exits in functions that push trace items): how far one handler can raise
+   the counter before the overflow test runs.  [None] = unbounded (a loop
+   that gains a frame per iteration). *)
 Fixpoint gain (t : tree) : option Z :=
   match t with
   | TEmp => Some 0%Z
   | TSym ST => Some 1%Z
-  | TSym SD => Some 0%Z      (* exit before it, or -1 *)
+  | TSym SD => Some (-1)%Z
   | TSym SO => Some 0%Z
   | TSeq a b =>
       match gain a, gain b with
       | Some ga, Some gb => Some (ga + gb)%Z
       | _, _ => None
       end
-  | TOpt a => gain a
+  | TOpt a =>
+      match gain a with
+      | Some ga => Some (Z.max 0 ga)
+      | None => None
+      end
   | TStar a =>
       match gain a with
       | Some ga => if (0 <? ga)%Z then None else Some 0%Z
       | None => None
       end
   end.
+
+Definition gain_at_most (g : Z) (t : tree) : bool :=
+  match gain t with Some x => (x <=? g)%Z | None => false end.
 
 (* ---- a driver for the extracted model: a compact script format ----
    ops are N codes: 0 = Other, 1 = Delayed, n+2 = Trace n *)
@@ -255,3 +264,23 @@ Inductive exec : tree -> list item -> bool -> Prop :=
 | ex_star_iter : forall a w1 f1 w2 f2,
     exec a w1 f1 -> exec (TStar a) w2 f2 -> exec (TStar a) (w1 ++ w2) f2
 | ex_star_exit : forall a w, exec a w true -> exec (TStar a) w true.
+
+(* executions that run to completion (no early exit) *)
+Inductive execc : tree -> list item -> Prop :=
+| exc_emp : execc TEmp []
+| exc_sym : forall s id, execc (TSym s) [item_of_sym s id]
+| exc_seq : forall a b w1 w2, execc a w1 -> execc b w2 -> execc (TSeq a b) (w1 ++ w2)
+| exc_opt_skip : forall a, execc (TOpt a) []
+| exc_opt : forall a w, execc a w -> execc (TOpt a) w
+| exc_star_done : forall a, execc (TStar a) []
+| exc_star_iter : forall a w1 w2, execc a w1 -> execc (TStar a) w2 -> execc (TStar a) (w1 ++ w2).
+
+(* ---- the call graph of the evaluator sources (Gen/EvalCallGraph.v) ----
+   nodes are numbered by the translator; the check is that every callee has a
+   smaller number than its caller, i.e. the numbering is a topological order,
+   which only an acyclic graph admits. *)
+Definition graph := list (N * list N).
+Definition graph_topo (g : graph) : bool :=
+  forallb (fun p => forallb (fun j => j <? fst p) (snd p)) g.
+Definition edge (g : graph) (a b : N) : Prop :=
+  exists succs, In (a, succs) g /\ In b succs.
